@@ -7,10 +7,28 @@ NOTE = ("Trusted: cbmc 6.11 front end/symex/back end; harness reference models a
         "all claims hold only within the bounds recorded in coverage.obligation_details (symbolic buffer sizes, unwind bounds, enumerated grids); "
         "allocation failure out of scope; left shift of negative values treated as GNU-C defined.")
 CLAIMED = {
+ "C01": ("Memory safety, assertion freedom, defined arithmetic and loop termination of the Teletext packet decoder, decided per leaf parser and per packet class: every parser "
+         "(MOT, POP, X/27, X/28-29, AIT, BTT, MPT, MPT-EX, MIP, DRCS conversion, page links, row parity gate) and the vbi_decode_teletext dispatcher for every packet number are executed "
+         "symbolically on an arbitrary 40-byte row with exact-size state objects, so an access one byte outside an object is a refutation. Caption/XDS units are covered under C09, raw decoding under C05, "
+         "DVB under C07, proxy under C19; formatting/export/search at full size are outside (see evidence 'outside').", "0.3 / 5 C01"),
+ "C02": ("Page links (X/27/0..3) produced by a reference encoder for all page/subcode/magazine values are stored exactly; the row parity gate copies a good row byte-exactly and never lets a bad row replace a "
+         "cached one; header field decoding (page number, subcode, national and control bits) equals an independent Hamming decode. Assembly across packets, Level-1 formatting and character sets are "
+         "claimed only as far as the listed obligations go.", "0.3 / 5 C02"),
+ "C03": ("All Hamming 8/4, 24/18, parity and bit-reversal primitives equal reference codes written from the parity equations for every input, every single error is corrected and every double error rejected; "
+         "for each consumer (page link, MOT, POP, X/27, X/28-29, AIT) one symbolic single-bit error anywhere in a clean protected byte/triplet leaves exactly the same decoder state as the clean packet; "
+         "an uncorrectable address changes nothing; an uncorrectable header subcode/control byte never lets the page be assembled; a row with a parity error never replaces a good row; X/26 out of sequence stores nothing.", "0.3 / 5 C03"),
+ "C09": ("One inductive step of the XDS demultiplexer from an arbitrary state satisfying a stated invariant, for every byte pair (first byte case-split over every dispatch class, second byte symbolic), is shown to be "
+         "exactly the EIA-608 reassembly step (start/continue/content/terminator/parity error/caption interruption), to deliver iff the checksum is good with the packet's class, type, length <= 32 and bytes, and to "
+         "touch no other packet; the invariant holds initially. Same step for the service decoder's own separator and memory safety of its XDS decoder for every type/length (thorough tier).", "0.3 / 5 C09"),
  "C12": ("Every codec pair (VPS, DVB PDC descriptor, 8/30 format 1 and 2) is executed symbolically over its full input space (all 13/5/42-byte buffers, all field values, every single-bit error position) "
          "and compared with independent reference encoders/decoders written from the standards; no enumeration, no sampling; bounded only by the fixed packet sizes.", "5 C12"),
+ "C13": ("Every reception history of bounded length (4-7 receptions drawn from two arbitrary symbolic values, symbolic pattern) per carrier (VPS, 8/30 format 1, WSS 625) is executed through the real decoder "
+         "functions and compared with a history-based reference of the debounce rule (announce at the second consecutive identical reception / after three WSS repeats with good parity, only on change), "
+         "event payloads against independent field extraction, NETWORK event and cache drop exactly on station change.", "0.3 / 5 C13"),
 }
 NA = {
+ "C20": "quantifier is thread schedules: goto-instrument --race-check crashes on struct-member shared state and cbmc's thread support aborts ('pointer handling for concurrency is unsound') on the real functions; "
+        "no other engine is installed; lock discipline is checked sequentially inside other properties' harnesses (DESIGN section 5 C20)",
 }
 def main():
     props = [json.loads(l)["id"] for l in open(os.path.join(HERE, "properties.jsonl"))]
